@@ -31,6 +31,11 @@ _current = None          # the Sim being run in this process (one at a time)
 
 
 def current():
+    st = getattr(_tls, 'st', None)
+    if st is not None:
+        if st.sim.aborted:
+            raise SimAbort()
+        return st.sim
     sim = _current
     if sim is None:
         raise RuntimeError('no simulation is running')
@@ -66,7 +71,7 @@ class TState:
     __slots__ = ('sim', 'name', 'role', 'index', 'daemon', 'target', 'args',
                  'kwargs', 'sem', 'state', 'wake_time', 'timed_out',
                  'block_kind', 'block_on', 'joiners', 'exc', 'real', 'tag',
-                 'stalls', 'steps')
+                 'stalls', 'steps', 'last_run')
 
     def __init__(self, sim, name, role, index, daemon, target, args, kwargs):
         self.sim = sim
@@ -89,6 +94,7 @@ class TState:
         self.tag = ('start',)
         self.stalls = 0
         self.steps = 0
+        self.last_run = 0
 
 
 _ROLE_BY_TARGET = {
@@ -136,6 +142,10 @@ class Sim:
         self.watch = []                     # callables(sim) run at each decision
         self.net = None
         self.evno = 0
+        self.forced = None                  # (thread name, decisions left)
+        self.fairness = 100                 # decisions a runnable thread may wait
+        self.spin_limit = 300               # decisions without any event
+        self._progress_at = 0
 
     # -- bookkeeping ------------------------------------------------------
     def next_event(self):
@@ -152,6 +162,8 @@ class Sim:
         self.stats[key] = self.stats.get(key, 0) + n
 
     def logev(self, kind, *detail):
+        if kind not in ('sched', 'time', 'stall', 'spin.advance'):
+            self._progress_at = self.decisions
         cur = self.cur.name if self.cur is not None else '-'
         rec = (self.steps, round(self.now, 9), cur, kind) + detail
         self._hash.update(repr(rec).encode())
@@ -183,6 +195,7 @@ class Sim:
             else '{}{}'.format(role, k)
         st = TState(self, tname, role, len(self.threads), daemon, target,
                     args, kwargs)
+        st.last_run = self.decisions
         self.threads.append(st)
         st.real = _rt.Thread(target=self._bootstrap, args=(st,),
                              name='sim-' + tname, daemon=True)
@@ -312,6 +325,14 @@ class Sim:
                     best = t.wake_time
         return best
 
+    def _timers_due(self):
+        now = self.now + 1e-12
+        for t in self.threads:
+            if t.state == 'blocked' and t.wake_time is not None \
+                    and t.wake_time <= now:
+                return True
+        return False
+
     def _advance(self, when):
         if when > self.now:
             self.now = when
@@ -322,6 +343,7 @@ class Sim:
                 t.state = 'runnable'
                 t.timed_out = True
                 t.wake_time = None
+                t.last_run = self.decisions
         self.logev('time')
 
     def _pick(self, cur):
@@ -332,7 +354,9 @@ class Sim:
             if self.budget is not None and self.steps > self.budget[0]:
                 raise _Stop('budget', self.budget[1])
             for w in self.watch:
-                w(self)
+                w(self, cur)
+            if self._timers_due():
+                self._advance(self.now)
             runnable = [t for t in self.threads if t.state == 'runnable']
             cands = runnable
             if self.parked:
@@ -350,10 +374,40 @@ class Sim:
                               and cur in cands) else cands[0]
             idx = self.decisions
             self.decisions += 1
+            # threads that spin without synchronising still let time pass
+            if (idx - self._progress_at > self.spin_limit
+                    and timer is not None and not self._lock_waiter()):
+                self._progress_at = idx
+                self.count('spin_advance')
+                self.logev('spin.advance', timer)
+                self._advance(timer)
+                continue
+            # fairness: a real scheduler does not starve a runnable thread
+            # for ever; part of the simulator (applies on replay too)
+            if len(cands) > 1:
+                oldest = min(cands, key=lambda t: t.last_run)
+                if idx - oldest.last_run > self.fairness and \
+                        oldest is not default:
+                    oldest.last_run = idx
+                    self.count('fairness_forced')
+                    return oldest
+            if self.forced is not None:
+                name, left = self.forced
+                pick = None
+                for t in cands:
+                    if t.name == name:
+                        pick = t
+                if pick is None or left <= 0:
+                    self.forced = None
+                else:
+                    self.forced = (name, left - 1)
+                    pick.last_run = idx
+                    return pick
             stall_ok = (self.stall_enabled and timer is not None
                         and timer - self.now <= self.max_stall
                         and not self._lock_waiter())
             if len(cands) == 1 and not stall_ok:
+                default.last_run = idx
                 return default
             tag = cur.tag if cur is not None else ('exit',)
             choice = self.chooser.choose(
@@ -375,6 +429,7 @@ class Sim:
                         chosen = t
                         self.deviations.append((idx, choice))
                         break
+            chosen.last_run = idx
             return chosen
 
     def _lock_waiter(self):
@@ -433,6 +488,7 @@ class Sim:
             st.state = 'runnable'
             st.wake_time = None
             st.timed_out = False
+            st.last_run = self.decisions
 
     def sleep(self, seconds):
         if seconds is None or seconds <= 0:
@@ -440,6 +496,11 @@ class Sim:
             return
         self.logev('sleep', round(seconds, 9))
         self.block('sleep', None, self.now + seconds)
+
+    def force(self, name, decisions):
+        """Targeted schedules: prefer thread `name` for the next decisions.
+        Part of the scenario (re-applied on replay), not of the schedule."""
+        self.forced = (name, decisions)
 
     def set_budget(self, steps, label):
         self.budget = (self.steps + steps, label) if steps else None
